@@ -345,9 +345,9 @@ const _: () = {
                     }
 
                     path.pop();
-                }
 
-                if let Some(exts) = self.omit_extensions.as_ref() {
+                /* a directory's name is never stripped: `d.js/index.html` is served at `/d.js` */
+                } else if let Some(exts) = self.omit_extensions.as_ref() {
                     for ext in exts.iter() {
                         if let Some(filename) = path.last().and_then(|p| p.strip_suffix(&format!(".{ext}"))) {
                             let filename_len = filename.len();
